@@ -6,6 +6,7 @@ import (
 	"strings"
 
 	"github.com/olric-data/olric/internal/verif/clustermc"
+	"github.com/olric-data/olric/internal/verif/confx"
 	"github.com/olric-data/olric/internal/verif/core"
 	"github.com/olric-data/olric/internal/verif/sched"
 	"github.com/olric-data/olric/internal/verif/schedmc"
@@ -40,6 +41,9 @@ type c14Sys struct {
 	Cl    *simcluster.Cluster
 	Conns []*c14Conn
 	Seq   int
+	// observations of the last PUBLISH (exported to the conformance replay)
+	LastCount int
+	LastRecv  []int
 }
 
 func c14New(p *c14Params) *c14Sys {
@@ -206,6 +210,7 @@ func (s *c14Sys) Apply(e clustermc.Ev) []clustermc.Fail {
 			return fs
 		}
 		total := 0
+		s.LastCount, s.LastRecv = reported, make([]int, len(s.Conns))
 		for ci, c := range s.Conns {
 			// matching subscriptions of this connection according to the model
 			k := 0
@@ -233,6 +238,7 @@ func (s *c14Sys) Apply(e clustermc.Ev) []clustermc.Fail {
 				}
 			}
 			total += d
+			s.LastRecv[ci] = d
 			switch {
 			case k == 0 && d > 0:
 				add("delivery/to-non-subscriber", "conn%d has no subscription matching %q (subscriptions %v) but received the message %d time(s)", ci, ch, subList(c), d)
@@ -355,6 +361,83 @@ func (s *c14Sys) Check() []clustermc.Fail {
 	return fs
 }
 
+// c14Traces: every event sequence of length <= 2 (in BFS order, capped), each followed by a PUBLISH
+// on a through member0 and on b through the last member, run on the simulated stack with every
+// observation recorded, for replay on the unmodified stack.
+func c14Traces(max int) []confx.Trace {
+	p := &c14Params{Name: "conformance", N: 2}
+	var paths [][]clustermc.Ev
+	s0 := c14New(p)
+	first := s0.Events()
+	for _, e := range first {
+		paths = append(paths, []clustermc.Ev{e})
+	}
+	for _, e := range first {
+		s := c14New(p)
+		s.Apply(e)
+		for _, e2 := range s.Events() {
+			paths = append(paths, []clustermc.Ev{e, e2})
+		}
+	}
+	// spread the cap over the whole list (deterministic stride), shortest first
+	if max > 0 && len(paths) > max {
+		stride := (len(paths) + max - 1) / max
+		var sel [][]clustermc.Ev
+		for i := 0; i < len(paths); i += stride {
+			sel = append(sel, paths[i])
+		}
+		paths = sel
+	}
+	tail := []clustermc.Ev{{K: "publish", A: 0, B: 0}, {K: "publish", A: p.N - 1, B: 1}}
+	var out []confx.Trace
+	for i, path := range paths {
+		s := c14New(p)
+		t := confx.Trace{ID: fmt.Sprintf("c14-%d", i), Members: p.N, R: 1, Entry: "pubsub"}
+		ok := true
+		for _, e := range append(append([]clustermc.Ev{}, path...), tail...) {
+			if len(s.Apply(e)) > 0 {
+				ok = false
+				break
+			}
+			st := confx.PsStep{Op: e.K, Conn: e.A}
+			switch e.K {
+			case "sub", "unsub":
+				st.Name = c14Channels[e.B]
+			case "psub", "punsub":
+				st.Name = c14Patterns[e.B]
+			case "publish":
+				st.Conn, st.Member, st.Name = 0, e.A, c14Channels[e.B]
+				st.Count, st.Recv = s.LastCount, append([]int{}, s.LastRecv...)
+			}
+			for _, m := range s.Cl.Members {
+				ch := ask(m, "pubsub", "channels")
+				sort.Strings(ch)
+				if ch == nil {
+					ch = []string{}
+				}
+				st.Chans = append(st.Chans, ch)
+				ns := ask(m, "pubsub", "numsub", "a", "b")
+				var a, b int64
+				if len(ns) == 4 {
+					fmt.Sscan(ns[1], &a)
+					fmt.Sscan(ns[3], &b)
+				}
+				st.NumSub = append(st.NumSub, []int64{a, b})
+				var np int64
+				if x := ask(m, "pubsub", "numpat"); len(x) == 1 {
+					fmt.Sscan(x[0], &np)
+				}
+				st.NumPat = append(st.NumPat, np)
+			}
+			t.Ps = append(t.Ps, st)
+		}
+		if ok {
+			out = append(out, t)
+		}
+	}
+	return out
+}
+
 func c14Specs(tier string) []*clustermc.Spec {
 	depth := 5
 	ns := []int{2}
@@ -399,7 +482,11 @@ func init() {
 		}
 		c.Cov["concurrent_part"] = "stateless exploration (preemption bound 2 quick / 3 thorough) of two publisher threads (A1,A2 through member0; B1 through member1) and a third thread that unsubscribes / subscribes / psubscribes a connection (and then publishes C1) over 2-3 subscriber layouts: exact delivery counts for connections whose subscriptions are stable, 0..1 for the one being changed, nothing after an acknowledged UNSUBSCRIBE, A1 before A2 everywhere, every PUBLISH reply equals the frames written for it"
 		schedmc.RunFamily(c, "C14", bound, 1, 0)
-		c.Cov["traces_validated_against_impl"] = 0
+		max := 60
+		if c.Tier == "thorough" {
+			max = 0
+		}
+		confx.Replay(c, c14Traces(max))
 		c.Assumef("subscriber connections are the server side of redcon's detached connection (a stand-in that feeds the real background runner one command at a time and waits for it to go idle); a connection with several matching subscriptions may legitimately receive between one copy and one copy per subscription")
 	}})
 }
